@@ -109,7 +109,8 @@ func (d *deepCopier) deepCopyIface(in, out reflect.Value) {
 		}
 		newVal := reflect.New(inElem.Type().Elem())
 		d.ptrMap[pKey] = newVal
-		out.Set(newVal)
+		// keep the dynamic type (it may be a defined pointer type)
+		out.Set(newVal.Convert(inElem.Type()))
 		d.deepCopy(inElem.Elem(), newVal.Elem())
 		return
 	case reflect.Struct:
@@ -121,8 +122,17 @@ func (d *deepCopier) deepCopyIface(in, out reflect.Value) {
 		if inElem.IsNil() {
 			return
 		}
-		out.Set(reflect.MakeMapWithSize(inElem.Type(), inElem.Len()))
-		d.deepCopy(inElem, out.Elem())
+		// consult (and record in) the map memo: the interface's payload is
+		// not settable, so deepCopyMap cannot do it for us, and a map that
+		// contains itself through an interface value would recurse forever.
+		if mv, ok := d.mapMap[inElem.Pointer()]; ok {
+			out.Set(mv.Convert(inElem.Type()))
+			return
+		}
+		newMap := reflect.MakeMapWithSize(inElem.Type(), inElem.Len())
+		d.mapMap[inElem.Pointer()] = newMap
+		out.Set(newMap)
+		d.deepCopyMapEntries(inElem, newMap)
 		return
 	case reflect.Slice:
 		if inElem.IsNil() {
@@ -225,6 +235,11 @@ func (d *deepCopier) deepCopyMap(in, out reflect.Value) {
 	if (out.IsNil() || out.Pointer() == in.Pointer()) && out.CanSet() {
 		out.Set(reflect.MakeMapWithSize(in.Type(), in.Len()))
 	}
+	d.deepCopyMapEntries(in, out)
+}
+
+// deepCopyMapEntries copies the entries of in into the (non-nil) map out.
+func (d *deepCopier) deepCopyMapEntries(in, out reflect.Value) {
 	iter := in.MapRange()
 	for iter.Next() {
 		oldKey := iter.Key()
